@@ -51,6 +51,13 @@ class GotranCCodePrinter(C99CodePrinter):
     def _print_Float(self, flt):
         return self._print(str(float(flt)))
 
+    def _print_Mod(self, expr):
+        # Mod(a, b) = a - b*floor(a/b) has the sign of the divisor (like % in
+        # Python), while fmod has the sign of the dividend (and the % operator,
+        # which sympy uses for integer arguments, is not defined for doubles)
+        num, den = (self._print(arg) for arg in expr.args)
+        return f"(({num}) - ({den})*floor(({num})/({den})))"
+
     def _print_Piecewise(self, expr):
         if isinstance(expr.args[0][0], Assignment):
             result = []
